@@ -61,6 +61,10 @@ pub struct Cfg {
     pub if_funds: u128,
     pub oi_cap: u128,
     pub holding_cap: u128,
+    /// the vAMMs name a different address than the engine's insurance fund as *their* insurance fund
+    /// (a separate, owner-updatable setting of the vAMM that only authorises SetOpen)
+    #[serde(default)]
+    pub vamm_if_other: bool,
 }
 
 impl Default for Cfg {
@@ -85,6 +89,7 @@ impl Default for Cfg {
             if_funds: 5_000 * D,
             oi_cap: 0,
             holding_cap: 0,
+            vamm_if_other: false,
         }
     }
 }
@@ -105,11 +110,12 @@ impl Cfg {
             self.mmr,
             self.plr,
             self.liq_fee,
-            if self.oi_cap > 0 || self.holding_cap > 0 {
-                format!(" oicap{} hcap{}", self.oi_cap, self.holding_cap)
-            } else {
-                String::new()
-            }
+            format!(
+                "{}{}{}",
+                if self.oi_cap > 0 || self.holding_cap > 0 { format!(" oicap{} hcap{}", self.oi_cap, self.holding_cap) } else { String::new() },
+                if self.if_funds != 5_000 * D { format!(" if{}", self.if_funds) } else { String::new() },
+                if self.vamm_if_other { " vamm-names-other-ifund" } else { "" }
+            )
         )
     }
 }
@@ -412,6 +418,22 @@ impl World {
                     vamm: v.to_string(),
                 },
             );
+            if cfg.vamm_if_other {
+                w.admin(
+                    &v.clone(),
+                    &VammExec::UpdateConfig {
+                        base_asset_holding_cap: None,
+                        open_interest_notional_cap: None,
+                        toll_ratio: None,
+                        spread_ratio: None,
+                        fluctuation_limit_ratio: None,
+                        margin_engine: None,
+                        insurance_fund: Some("other_ifund".into()),
+                        pricefeed: None,
+                        spot_price_twap_interval: None,
+                    },
+                );
+            }
             if cfg.oi_cap > 0 || cfg.holding_cap > 0 {
                 w.admin(
                     &v.clone(),
